@@ -242,6 +242,42 @@ func checkC06(p *Program, r *Report) {
 		r.Unresolved("C06.total", "NewWIF")
 	}
 	r.Floor("C06.total", 1)
+	// round 7 (C06-agent7-m2): IsForNet answers with the comparison and nothing else — a constant verdict is allowed only
+	// behind nil tests of the receiver or the argument (a "zero-value WIF belongs to no network" guard denied
+	// membership to every key of a network whose PrivateKeyID is 0x00)
+	if isf := p.Func("", "(*WIF).IsForNet"); isf != nil {
+		for i, ret := range returnsOf(isf) {
+			if _, isK := constBool(ret.Results[0]); !isK {
+				continue
+			}
+			okNil := true
+			// every branch edge that leads into the constant verdict is a nil test
+			seenB := map[*ssa.BasicBlock]bool{}
+			var into func(b *ssa.BasicBlock)
+			into = func(b *ssa.BasicBlock) {
+				if seenB[b] {
+					return
+				}
+				seenB[b] = true
+				for _, pb := range b.Preds {
+					if cd, ok := edgeCond(pb, b); ok {
+						bo, _, isB := condBinOp(cd)
+						if !isB || !(isNilConst(bo.X) || isNilConst(bo.Y)) {
+							okNil = false
+						}
+					} else {
+						into(pb)
+					}
+				}
+			}
+			into(ret.Block())
+			if len(ret.Block().Preds) == 0 {
+				okNil = false
+			}
+			r.Add("C06.net", FnName(isf), fmt.Sprintf("constant verdict #%d is given only for a nil receiver or network", i+1), ret.Pos(), okNil,
+				"a constant answer on a path that tested something other than nil-ness")
+		}
+	}
 	// round 6: a fixed-length digit buffer in a big.Int-free Base58 conversion must be long enough (shared with C07.exact)
 	radixBufferRule(p, r, "C06.canon")
 	r.Floor("C06.accepts", 3)
